@@ -24,10 +24,11 @@ FUNCTIONS_ENCODED = [
 ]
 BOUNDS = {
     'quick': 'placement obligations: concrete tables of 2, 3, 4 points (unsorted supply order) with T_ref, T and the range symbolic reals (every placement relative to the span is a path); all values symbolic reals: supply order for tables of 1..3 points; H-integral identity for 1..2 points; '
-             'S-integral/Cp/reference values/G for 1 point; wrapper delegation for 1..2 points; T_ref, T anywhere in a '
+             'S-integral/Cp/reference values/G for 1 point; wrapper delegation for 1..2 points; one seeded shipped group from each of six libraries with its real FITPACK spline as an exact piecewise polynomial and T symbolic over the whole range; T_ref, T anywhere in a '
              'symbolic range with lo>0 (below/at/inside/above the span are paths)',
     'thorough': 'supply order and H-integral for 1..4 points; S-integral, Cp/refs, wrapper for 1..3 points (obligations that '
-                'do not close within 2400 s are reported inconclusive)',
+                'do not close within 1500 s are reported inconclusive); 72 shipped groups (seeded) of six libraries: the real FITPACK spline '
+                'as an exact piecewise polynomial with T symbolic over the whole range (H integral and Cp)',
 }
 STUBS = ['PolySpline/SplineFactory for InterpolatedUnivariateSpline', 'NpShim', 'LN uninterpreted + QuadStub',
          'warnings.warn recorder', 'LinDict for the Cp mapping keyed by symbolic temperatures']
@@ -262,7 +263,7 @@ def signature(ob, param, ret):
 
 def obligations(tier, seed):
     q = tier == 'quick'
-    to = 200 if q else 2400
+    to = 200 if q else 1500
     obs = []
     for n in (1, 2, 3) if q else (1, 2, 3, 4):
         obs.append(dict(name='init_order_n%d' % n, func='h_init_order', param=dict(npts=n), timeout=to))
@@ -275,6 +276,13 @@ def obligations(tier, seed):
     for n in (1,) if q else (1, 2, 3):
         obs.append(dict(name='integral_S_n%d' % n, func='h_integral_S', param=dict(npts=n), timeout=to, abstraction=True))
         obs.append(dict(name='cp_and_refs_n%d' % n, func='h_cp_and_refs', param=dict(npts=n), timeout=to, abstraction=True))
+    import random
+    rnd = random.Random(seed)
+    for lib, ngroups in (('BensonGA', 95), ('GRWSurface2018', 66), ('SalciccioliGA2012', 75), ('XieGA2022', 24),
+                         ('GuSolventGA2017Aq', 75), ('PtSurface2023', 67)):
+        for gi in sorted(rnd.sample(range(ngroups), 1 if q else 12)):
+            obs.append(dict(name='shipped_%s_g%d' % (lib, gi), func='h_shipped_table',
+                            param=dict(ship_lib=lib, ship_group=gi), timeout=200 if q else 600))
     for n in (1, 2) if q else (1, 2, 3):
         for g in ('get_CpoR', 'get_HoRT', 'get_SoR'):
             obs.append(dict(name='wrapper_delegates_n%d_%s' % (n, g), func='h_wrapper_delegates',
@@ -283,5 +291,78 @@ def obligations(tier, seed):
 
 
 def validate(tier, seed):
-    from vf.stubs.validate_numeric import validate_polyspline, validate_quad
-    return [validate_polyspline(seed), validate_quad(seed)]
+    from vf.stubs.validate_numeric import validate_polyspline, validate_quad, validate_piecewise
+    return [validate_polyspline(seed), validate_quad(seed), validate_piecewise(seed), validate_array_mode(seed)]
+
+
+def validate_array_mode(seed):
+    """array-valued T (outside the symbolic claim): the real get_CpoR on a numpy array must agree with the scalar calls at the
+    knots, at both ends, inside and outside the span (concrete, real numpy/FITPACK)"""
+    import random
+    import numpy as np
+    from pgradd.ThermoChem import ThermochemRawData
+    rnd = random.Random(seed + 3)
+    bad, n = [], 0
+    for _ in range(30):
+        N = rnd.randint(1, 7)
+        Ts = sorted(rnd.sample(range(200, 1500, 10), N))
+        Cps = [rnd.uniform(2, 30) for _ in Ts]
+        c = ThermochemRawData(1.0, 2.0, [float(t) for t in Ts], Cps, 298.15, (100.0, 2000.0))
+        pts = [float(t) for t in Ts] + [100.0, 2000.0, (Ts[0] + Ts[-1]) / 2.0, Ts[0] - 5.0, Ts[-1] + 5.0]
+        arr = c.get_CpoR(np.array(pts))
+        for t, v in zip(pts, arr):
+            n += 1
+            if abs(float(v) - c.get_CpoR(t)) > 1e-9 * (1 + abs(c.get_CpoR(t))):
+                bad.append((Ts, t, float(v), c.get_CpoR(t)))
+    entry = dict(name='array-valued get_CpoR agrees with scalar calls at knots, ends, inside and outside the span (concrete)', ok=True, n=n,
+                 detail='%d disagreements: %r' % (len(bad), bad[:1]))
+    if bad:
+        entry['violation'] = [False, 'array_mode: Cp/R from an array of temperatures differs from the scalar value', {'case': str(bad[0])[:200]}]
+        entry['func'] = 'concrete'
+    return entry
+
+
+# ---- shipped tables: the real FITPACK spline of a shipped group as an exact piecewise polynomial, T symbolic --------------
+_SHIP = None
+if PARAM.get('ship_lib'):
+    import warnings as _w
+    _w.simplefilter('ignore')
+    import pgradd.ThermoChem  # noqa: F401
+    from pgradd.GroupAdd.Library import GroupLibrary as _GL
+    from vf.stubs.numeric import PiecewisePoly as _PWP
+    _lib = _GL.Load(PARAM['ship_lib'])
+    _g = [g for g in _lib if 'thermochem' in _lib[g] and _lib[g]['thermochem'].has_ND_Cp()][PARAM['ship_group']]
+    _real = _lib[_g]['thermochem']._correlation
+    _stub = _PWP.from_real_spline(_real.spline) if len(_real.Ts) > 1 else None
+    _SHIP = (str(_g), _real, _stub)
+
+
+def h_shipped_table(d: bool):
+    """
+    post: _[0]
+    """
+    begin()
+    m = th.install()
+    name, real, stub = _SHIP
+    if stub is None:
+        return skip()
+    obj = object.__new__(m['rd'].ThermochemRawData)
+    for f in ('Ts', 'ND_Cps', 'min_T', 'max_T', 'min_ND_Cp', 'max_ND_Cp', 'ND_H_ref', 'ND_S_ref', 'T_ref', 'range'):
+        v = getattr(real, f)
+        setattr(obj, f, tuple(float(x) for x in v) if isinstance(v, (tuple, list)) else (None if v is None else float(v)))
+    obj.spline = stub
+    lo, hi = obj.range
+    T = R('T')
+    if not (lo <= T <= hi):
+        return skip()
+    try:
+        h = obj.get_HoRT(T)
+        cp = obj.get_CpoR(T)
+        lhs = h * T - obj.ND_H_ref * obj.T_ref
+        rhs = th.ext_anti(stub, obj.min_T, obj.max_T, T) - th.ext_anti(stub, obj.min_T, obj.max_T, obj.T_ref)
+        ok, status = all_close([(lhs, rhs), (cp, th.ext_cp(stub, obj.min_T, obj.max_T, T))],
+                               ['shipped: T*H/RT(T) - T_ref*H_ref is not the integral of Cp/R for group %s' % name,
+                                'shipped: Cp/R(T) is not the spline / its constant continuation for group %s' % name])
+    except Exception as e:
+        ok, status = False, 'shipped: raised %s for group %s' % (type(e).__name__, name)
+    return finish(ok, status)
